@@ -106,7 +106,7 @@ static std::string ensure_reference(const RefKey& k, const std::set<std::string>
     RefCtx* prc = &g_ref[k];
     sim::Result r = w.run([&](int) {
         mpi::communicator comm;
-        models::Stage0 s0(k.model, k.mp, k.nosym);
+        models::Stage0 s0(k.model, k.mp, k.nosym, /*near_degenerate_ok=*/false);
         s0.H->prepare(comm); s0.H->compute(comm);
         models::Stage1 s1(s0, k.beta);
         for (auto& qs : missing) {
@@ -130,7 +130,7 @@ static bool close_enough(ComplexType a, ComplexType b) { return std::abs(a - b) 
 static void run_history(const RefKey& k, const std::vector<Op>& ops, RankReport& rep) {
     mpi::communicator comm;
     int rank = comm.rank();
-    models::Stage0 s0(k.model, k.mp, k.nosym);
+    models::Stage0 s0(k.model, k.mp, k.nosym, /*near_degenerate_ok=*/false);
     s0.H->prepare(comm); s0.H->compute(comm);
     models::Stage1 s1(s0, k.beta);
     TwoParticleGFContainer Chi(*s0.IndexInfo, *s0.S, *s0.H, *s1.rho, *s1.Ops);
@@ -313,7 +313,7 @@ static hc::Outcome run_one(hc::RunSpec& rs) {
     int P; { int x = r.below(100); P = x < 35 ? 1 : x < 65 ? 2 : x < 85 ? 3 : 4; }
     c.def("P", P); P = std::max(1, std::min(8, (int)c.i("P"))); c.set("P", P);
     int model; { int x = r.below(100); model = x < 40 ? models::ATOM : x < 80 ? models::DIMER : x < 86 ? models::ATOM_FIELD : x < 90 ? models::DIMER_FIELD : x < 93 ? models::ATOMS2 : x < 96 ? models::EXCH2 : models::KANAMORI; }
-    c.def("model", model); model = (int)c.i("model") % models::N_MODELS; if (model < 0 || models::is_big(model) || model == models::ATOMS3) model = 0; c.set("model", model);
+    c.def("model", model); model = (int)c.i("model") % models::N_MODELS; if (model < 0 || models::is_big(model) || model == models::ATOMS3 || model == models::TINYDIMER) model = 0;   // TINYDIMER: see models::params c.set("model", model);
     c.def("mp", r.pct(15) ? 0 : r.range(1, 100000));
     c.def("nosym", r.pct(10));
     c.def("beta", r.pick(std::vector<int>{1, 2, 5, 10, 20}));
